@@ -5,7 +5,8 @@ out: per job {"steps_done", "failed_at", "failure", "min_rel_eig", "max_asym_rel
 
 Rounding bound.  A rounding error dP injected at one step reaches later covariances as F dP F^T with F = G for a
 prediction and F = I - K H for an update (the derivative of both update forms at the optimal gain).  The harness
-therefore carries the matrix recurrence  E' = F E F^T + C u (size of the products formed in this step) I, with
+therefore carries the matrix recurrence  E' = F E F^T + C u diag(row sums of the entry-wise size |G| |P| |G|^T ... of the
+products formed in this step), with
 u = 2^-53 and a generous constant C, using the filter's own Jacobians: if -E <= dP <= E in the Loewner order then
 -F E F^T <= F dP F^T <= F E F^T, so lambda_max(E) bounds every eigenvalue defect to first order.  lambda_max(E) / max(1, |P|) is the level at which
 'up to rounding relative to magnitude' can be asked of ANY covariance-form implementation on this history; on
@@ -15,6 +16,14 @@ import numpy as np
 sys.path.insert(0, __file__.rsplit("/", 1)[0])
 import glue_py as G  # noqa
 from formak import python  # noqa
+
+
+def dominate(B):
+    """a symmetric error D with |D_ij| <= B_ij satisfies -L <= D <= L in the Loewner order for L = diag(row sums of the
+    symmetrised B):  |x^T D x| <= sum_ij |x_i||x_j| B_ij <= sum_i x_i^2 sum_j B_ij.  Keeps the bound component-wise: a
+    state that is only copied (no arithmetic on it) receives no rounding from the large entries of another one."""
+    Bs = (np.abs(B) + np.abs(B).T) / 2
+    return np.diag(Bs.sum(axis=1))
 
 
 def run_job(job):
@@ -43,18 +52,26 @@ def run_job(job):
             if op[0] == "p":
                 ctl = ekf.Control(**op[2])
                 Gm = ekf.process_jacobian(float(op[1]), state, ctl)
-                Vm = ekf.control_jacobian(float(op[1]), state, ctl)
-                g = nrm(Gm)
-                E = Gm @ E @ Gm.T + CONST * U * (g * g * Pn + nrm(np.asarray(Vm, dtype=float)) ** 2 * Mn) * I_n
+                Vm = np.asarray(ekf.control_jacobian(float(op[1]), state, ctl), dtype=float)
+                # entry-wise rounding of the products formed: |fl(G P G^T) - G P G^T| <= gamma |G| |P| |G|^T
+                B = np.abs(Gm) @ np.abs(cov.data) @ np.abs(Gm).T
+                if Vm.size:
+                    B = B + np.abs(Vm) @ (Mn * np.eye(Vm.shape[1])) @ np.abs(Vm).T
+                E = Gm @ E @ Gm.T + CONST * U * dominate(B)
             else:
                 Hm = ekf.sensor_jacobian(op[1], state)
-                Qn = max(abs(float(v)) for v in defn["sensor_noise"][op[1]].values())
                 Ps = (cov.data + cov.data.T) / 2
-                Sm = Hm @ Ps @ Hm.T + np.diag([float(defn["sensor_noise"][op[1]][r]) for r in sorted(defn["sensor_noise"][op[1]])])
-                Km = Ps @ Hm.T @ np.linalg.inv(Sm)
+                Rm = np.diag([float(defn["sensor_noise"][op[1]][r]) for r in sorted(defn["sensor_noise"][op[1]])])
+                Sm = Hm @ Ps @ Hm.T + Rm
+                Si = np.linalg.inv(Sm)
+                Km = Ps @ Hm.T @ Si
                 Fm = I_n - Km @ Hm
-                k_, h_ = nrm(Km), nrm(Hm)
-                E = Fm @ E @ Fm.T + CONST * U * (Pn * (1 + k_ * h_) ** 2 + k_ * k_ * Qn + k_ * h_ * Pn * float(np.linalg.cond(Sm))) * I_n
+                aP, aH, aK = np.abs(Ps), np.abs(Hm), np.abs(Km)
+                dS = nrm(aH @ aP @ aH.T + np.abs(Rm))                                    # rounding of S (relative to u)
+                dSi = nrm(Si) ** 2 * dS + float(np.linalg.cond(Sm)) * nrm(Si)            # of its inverse
+                Kerr = (aP @ aH.T) * dSi + aP @ aH.T @ np.abs(Si)                        # entry-wise, of the gain
+                B = aP + aK @ aH @ aP + Kerr @ np.abs(Hm @ Ps)                           # entry-wise, of P - K H P
+                E = Fm @ E @ Fm.T + CONST * U * dominate(B)
         except Exception as e:  # noqa
             out["stopped"] = "bound computation failed: " + type(e).__name__
             break
